@@ -61,12 +61,12 @@ Definition cres_abort_ok (observed full:res cres) : bool :=
 
 Definition check_validate (o:opts) (sg g:graph) (E:env) (observed:res cres) : bool :=
   if abort o then
-    cres_abort_ok observed (validate {| abort := false; allow_infos := allow_infos o; allow_warnings := allow_warnings o;
+    cres_abort_ok observed (validate_impl {| abort := false; allow_infos := allow_infos o; allow_warnings := allow_warnings o;
                                         max_depth := max_depth o; focus_filter := focus_filter o |} sg g E)
-  else cres_eqb (validate o sg g E) observed.
+  else cres_eqb (validate_impl o sg g E) observed.
 
 Definition check_validate_sel (use:list term) (o:opts) (sg g:graph) (E:env) (observed:res cres) : bool :=
-  cres_eqb (validate_sel o sg g E use) observed.
+  cres_eqb (validate_sel_impl o sg g E use) observed.
 
 Definition check_focus (sg g:graph) (s:shape) (observed:list term) : bool :=
   tset_eqb (focus_nodes sg g s) observed.
